@@ -201,6 +201,23 @@ struct Words<'a>(Vec<&'a str>);
 fn longest_inner<'a>(w: &Vec<&'a str>) -> &'a str { let mut best: &'a str = ""; for x in w { if x.len() > best.len() { best = *x; } } best }
 fn longest<'a>(w: &Words<'a>) -> &'a str { let mut best: &'a str = ""; for x in w { if x.len() > best.len() { best = *x; } } best }
 
+// a user trait in scope whose methods are named like the inherent float methods the expansion relies on
+mod hostile {
+    pub trait Finiteish { fn is_finite(&self) -> bool; fn is_nan(&self) -> bool; fn is_infinite(&self) -> bool; }
+    impl Finiteish for f64 { fn is_finite(&self) -> bool { true } fn is_nan(&self) -> bool { false } fn is_infinite(&self) -> bool { false } }
+    impl Finiteish for f32 { fn is_finite(&self) -> bool { true } fn is_nan(&self) -> bool { false } fn is_infinite(&self) -> bool { false } }
+}
+mod scoped {
+    #![allow(unused_imports)]
+    use super::hostile::Finiteish;
+    use nutype::nutype;
+    #[nutype(validate(finite), derive(Debug, Clone, Copy, PartialEq, Eq, PartialOrd, Ord, TryFrom, FromStr, AsRef))]
+    pub struct Fin(f64);
+    #[nutype(validate(finite, greater_or_equal = 0.0), derive(Debug, Clone, Copy, PartialEq, Eq, PartialOrd, Ord, TryFrom, AsRef))]
+    pub struct Fin32(f32);
+    pub fn trait_is_in_scope(x: &f64) -> bool { x.is_finite() }
+}
+
 fn bits_eq_vec(a: &[f64], b: &[f64]) -> bool {
     a.len() == b.len() && a.iter().zip(b).all(|(x, y)| x.to_bits() == y.to_bits())
 }
@@ -390,6 +407,17 @@ fn main() {
         let l: Vec<i64> = (0..3).map(|_| Lvl::default().into_inner()).collect();
         report("C03", "Lvl", "default_sanitized", l == vec![10, 10, 10] && Lvl::try_new(50).map(|t| t.into_inner()).ok() == Some(10), format!("{:?}", l));
         let _ = std::panic::take_hook();
+    }
+    // ------------------------------------------------------------ `finite` means f64::is_finite whatever traits the user has in scope
+    {
+        use std::str::FromStr;
+        let scope_ok = scoped::trait_is_in_scope(&f64::NAN);        // the user trait answers "finite" for NaN
+        for (k, x) in [f64::NAN, f64::INFINITY, f64::NEG_INFINITY, -f64::NAN].iter().enumerate() {
+            report("C12", "Fin", "non_finite_refused", scope_ok && scoped::Fin::try_new(*x).is_err() && scoped::Fin::try_from(*x).is_err()
+                   && scoped::Fin32::try_new(*x as f32).is_err(), format!("input {}", k));
+        }
+        report("C12", "Fin", "non_finite_text_refused", scoped::Fin::from_str("NaN").is_err() && scoped::Fin::from_str("inf").is_err() && scoped::Fin::from_str("1.5").is_ok(), String::new());
+        report("C01", "Fin", "try_new", scoped::Fin::try_new(1.5).map(|t| t.into_inner()).ok() == Some(1.5) && scoped::Fin32::try_new(-1.0).is_err(), String::new());
     }
     // ------------------------------------------------------------ Words<'a>: items outlive the borrow of the wrapper
     {
